@@ -118,6 +118,8 @@ def cli_flags(s: dict[str, Any]) -> list[str] | None:
 
 def resolve_once(scratch: str, case: dict[str, Any], sch: dict[str, Any]) -> tuple[list[str] | None, str | None, simproc.Interposer, str]:
     args = [case["args"][i] for i in sch["arg_perm"] if i < len(case["args"])]
+    troot = os.path.join(scratch, "t")
+    args = [(os.path.join(troot, a[4:]) if a[4:] else troot) if a.startswith("ABS:") else a for a in args]
     s = case["settings"]
     ip = simproc.Interposer(scratch, [], {"listing": sch["listing"], "list_seed": sch["list_seed"]})
     box: dict[str, Any] = {}
